@@ -414,6 +414,12 @@ func run(c *fw.Ctx) error {
 	}
 	var behs []beh
 	if c.Replay != "" {
+		var lr struct {
+			Late *lateCase `json:"late"`
+		}
+		if c.LoadReplay(&lr) == nil && lr.Late != nil {
+			return lateFamily(c, lr.Late)
+		}
 		var b beh
 		if err := c.LoadReplay(&b); err != nil {
 			return err
@@ -486,6 +492,9 @@ func run(c *fw.Ctx) error {
 	}
 	if c.Replay == "" {
 		if err := redefinitions(c); err != nil {
+			return err
+		}
+		if err := lateFamily(c, nil); err != nil {
 			return err
 		}
 	}
